@@ -48,6 +48,7 @@ const (
 	kStruct // a struct of a translated package: flattened to the fields used
 	kOpaque // a type the translator does not model (interfaces, maps, mutexes): may not be used
 	kUnit   // no result
+	kEvent  // trace targets: rg_ev A B (a call of the traced function with arguments A / an output B)
 )
 
 type typ struct {
@@ -106,6 +107,8 @@ func (t typ) coq() string {
 		return "Box3 O"
 	case kUnit:
 		return "unit"
+	case kEvent:
+		return "rg_ev " + t.args[0].coqAtom() + " " + t.args[1].coqAtom()
 	case kTup:
 		var ps []string
 		for _, a := range t.args {
